@@ -377,3 +377,22 @@ package zygo
 //@ sweepfile C01 scopes.go
 //@ sweepfile C01 address.go
 //@ sweepfile C01 pratt.go
+
+// Fields set once by their constructors: existing objects keep them across any call.
+//@ stable C01 Parser | lexer, env | (*Zlisp).NewParser
+//@ stable C01 Generator | env | NewGenerator
+//@ stable C01 Zlisp | parser | NewZlispWithFuncs, (*Zlisp).Clone, (*Zlisp).Duplicate
+//@ stable C01 Stack | env | (*Zlisp).NewStack, (*Stack).Clone
+
+// Token look-ahead: a successful peek at position `extra` that does not report
+// end-of-input guarantees that many tokens are buffered.  Callers that index
+// lexer.tokens[extra] must have checked the error.
+//@ func (*Lexer).PeekNextToken
+//@ requires extra >= 0
+//@ C01 nopanic
+//@ C01 ensures buffered: err == nil && tok.typ != TokenEnd ==> len(lexer.tokens) > extra
+
+//@ func (*Parser).ParserPeekNextToken
+//@ requires extra >= 0
+//@ C01 nopanic
+//@ C01 ensures buffered: err == nil ==> tok.typ != TokenEnd && len(parser.lexer.tokens) > extra
